@@ -1391,6 +1391,78 @@ func c19NameLabels(c *Ctx, p *Prog) {
 		})
 	}
 	c.Floor(R, "gomaxprocs labels derived from names", n, 1)
+	// an unnamed part is numbered by its position among all parts: the number printed into "sub%d" advances with every
+	// part of the name (a loop index), not only with the unnamed ones
+	ns := 0
+	for _, fn := range p.Funcs("storage/benchfmt") {
+		eachInstr(fn, func(_ *ssa.BasicBlock, in ssa.Instruction) {
+			call, ok := in.(*ssa.Call)
+			if !ok || !objIs(calleeObj(&call.Call), "fmt", "", "Sprintf") {
+				return
+			}
+			if f, ok := constString(call.Call.Args[0]); !ok || !strings.Contains(f, "sub%d") {
+				return
+			}
+			ns++
+			var operand ssa.Value
+			if sl, ok := call.Call.Args[1].(*ssa.Slice); ok {
+				if al, ok := sl.X.(*ssa.Alloc); ok {
+					for _, st := range storesInto(al) {
+						if mi, ok := st.Val.(*ssa.MakeInterface); ok {
+							operand = mi.X
+						}
+					}
+				}
+			}
+			// strip constant offsets, then expect a loop-header phi all of whose in-loop edges are phi+constant computed
+			// once per iteration (in the header itself or in a block every iteration passes: a latch)
+			v := operand
+			for i := 0; i < 3; i++ {
+				if bo, ok := v.(*ssa.BinOp); ok && bo.Op == token.ADD {
+					if _, isK := constInt(bo.Y); isK {
+						if _, isPhi := bo.X.(*ssa.Phi); isPhi {
+							// phi+1 may itself be the per-iteration step: look at the phi
+							v = bo.X
+							break
+						}
+						v = bo.X
+						continue
+					}
+				}
+				break
+			}
+			positional := false
+			if phi, ok := v.(*ssa.Phi); ok {
+				for _, lp := range naturalLoops(fn) {
+					if lp.Header != phi.Block() {
+						continue
+					}
+					positional = true
+					var step ssa.Value
+					for i, e := range phi.Edges {
+						if !lp.Blocks[lp.Header.Preds[i]] {
+							continue
+						}
+						bo, ok := e.(*ssa.BinOp)
+						if !ok || bo.Op != token.ADD || bo.X != ssa.Value(phi) {
+							positional = false
+							continue
+						}
+						if step != nil && step != e {
+							positional = false
+						}
+						step = e
+					}
+					if step == nil {
+						positional = false
+					}
+				}
+			}
+			c.Check(positional, R, fmt.Sprintf("%s:unnamed parts numbered by position#%d", fnName(fn), ns), p.pos(call.Pos()), "the number of an unnamed part advances with every part of the name",
+				"the number printed into an unnamed part's label (sub%d) does not advance with every part of the name: in BenchmarkEncode/size=1024/gzip the part gzip is the second part and must be sub2, a counter of unnamed parts makes it sub1, so stored records and queries disagree on the label")
+		})
+	}
+	c.Floor(R, "unnamed-part labels", ns, 1)
 	nb := 0
 	for _, fn := range p.Funcs("storage/app") {
 		eachInstr(fn, func(_ *ssa.BasicBlock, in ssa.Instruction) {
